@@ -1,6 +1,6 @@
 (* C05 (regulator data): the wire layout over a schema as an encoder of abstract entries, and the conformance statement. *)
 From Coq Require Import NArith ZArith List Bool Arith.
-From PV Require Import Lib.Bytes Generated.Tables Model.Versions Model.DataTypes Model.SensorData Model.OtherKinds Spec.C19.
+From PV Require Import Model.LazyData Lib.Bytes Generated.Tables Model.Versions Model.DataTypes Model.SensorData Model.OtherKinds Spec.C19.
 Import ListNotations.
 Open Scope N_scope.
 
@@ -49,4 +49,17 @@ Definition C05_regdata_statement : Prop :=
     decode_regdata (Some (map (fun e => (re_id e, re_code e)) l))
       ([b0; b1; 0; 1] ++ [N.of_nat (length versions)] ++ concat (map (fun p => fst p :: le_encode 2 (snd p)) versions) ++
        enc_entries [] l ++ trailing) =
+    Some (Some (dict_of versions, Some (map (fun e => (re_id e, re_val e)) l))).
+
+(* the lazily decoded, cached data of a received frame (Model/LazyData.v): however often the frame was looked at before it was
+   handed to its device (the reader's debug log line does that), afterwards it decodes as C05_regdata says it does WITH the
+   schema of that device *)
+Definition C05_regdata_history_statement : Prop :=
+  forall (before after : list (lop (list (N * N)))) b0 b1 versions l trailing,
+    (length versions <= 255)%nat -> forallb (fun p => byteb (fst p) && (snd p <? 65536)) versions = true ->
+    forallb entry_ok l = true -> l <> [] -> Forall (fun o => o = LAccess) after ->
+    let m := [b0; b1; 0; 1] ++ [N.of_nat (length versions)] ++ concat (map (fun p => fst p :: le_encode 2 (snd p)) versions) ++
+             enc_entries [] l ++ trailing in
+    let dec := fun schema => decode_regdata schema m in
+    ldata dec (lrun true dec (before ++ LAssign (map (fun e => (re_id e, re_code e)) l) :: after)) =
     Some (Some (dict_of versions, Some (map (fun e => (re_id e, re_val e)) l))).
